@@ -188,10 +188,19 @@ func TestC13Dashes(t *testing.T) {
 			spaced = append(spaced, g.text(), s)
 		}
 		spaced = append(spaced, g.text())
+		if rapid.IntRange(0, 3).Draw(rt, "large") == 0 {
+			// beyond 4096 bytes the second tokenizer reads the template: dashes must behave alike
+			spaced = append(spaced, Text("<"+strings.Repeat("p", 4200)+">"))
+		}
 		c := C13Case{Ctx: g.x.ctx, Set: TSet{{Name: "main", Body: spaced}}}
 		_, eff, nd := handTrim(c.Set[0])
 		src := PrintTmpl(c.Set[0], SPrint{})
-		r.Case(src+showModel(c.Ctx.Model()), eff > 0, q(src), fmt.Sprintf("dashes:%d", min(nd, 9)))
+		cls := []string{fmt.Sprintf("dashes:%d", min(nd, 9))}
+		if len(src) > 4096 {
+			cls = append(cls, "template>4096")
+			src = src[:200] + "…"
+		}
+		r.Case(src+showModel(c.Ctx.Model()), eff > 0, q(src), cls...)
 		if err := checkC13(c); err != nil {
 			r.Fail(rt, "C13.dash", c, err)
 		}
